@@ -2,7 +2,8 @@
   C07 — Eviction removes only least-valuable per-sender suffixes, no more than needed.
 -/
 import SV.TxCache.EvictPost
-import SV.GenProofs
+import SV.GenProofs.TxThresholds
+import SV.GenProofs.TxComparator
 namespace SV.Props.C07
 open SV SV.TxCache
 
